@@ -77,7 +77,7 @@ def fingerprint(expression, args, cname):
     """for the probe name and every other column argument: how often it occurs in the built tree as a column
     reference and as a string literal (the data-flow the model must reproduce)"""
     from sqlglot import exp
-    names = [cname] + [a["name"] for a in args if a["t"] == "col"]
+    names = [cname] + [a["name"] for a in args if a["t"] in ("col", "name")]
     cols, lits = {}, {}
     for node in expression.walk():
         if isinstance(node, exp.Column) and isinstance(node.this, exp.Identifier) and not node.table:
